@@ -131,6 +131,22 @@ def _clock_sources(ctx):
     mod = ctx.repo.module(MOD)
     allowed = {'utcnow', 'utcnow_ts', 'set_time_override'}
     n = 0
+    # private helpers that are only ever called from the allowed functions
+    # (or from other such helpers) may read the clock on their behalf
+    callers = {}
+    for node in ast.walk(mod.tree):
+        if isinstance(node, ast.Call) and isinstance(node.func, ast.Name):
+            callers.setdefault(node.func.id, set()).add(
+                enclosing_function(node).split('.')[0])
+    helpers = set()
+    changed = True
+    while changed:
+        changed = False
+        for name, who in callers.items():
+            if name.startswith('_') and name not in helpers and who and \
+                    who <= (allowed | helpers):
+                helpers.add(name)
+                changed = True
     for node in ast.walk(mod.tree):
         if isinstance(node, ast.Call):
             name = ast.unparse(node.func)
@@ -140,7 +156,7 @@ def _clock_sources(ctx):
                 n += 1
                 fn = enclosing_function(node)
                 rep.check('R12.1', 'clock-read in %s' % fn,
-                          fn.split('.')[0] in allowed,
+                          fn.split('.')[0] in allowed | helpers,
                           '%s() is called in %s; the wall clock may only be '
                           'read by %s (everything else must go through '
                           'utcnow() so that an override applies)' % (
